@@ -23,7 +23,9 @@ THEOREMS = ['Tbox.C12.' + t for t in [
     'C12_url_host_roundtrip_counterexample_pw_without_user', 'C12_url_host_roundtrip_counterexample_percent',
     'C12_url_host_roundtrip_counterexample_port', 'C12_url_abs_roundtrip_counterexample_scheme',
     'C12_url_abs_roundtrip_counterexample_noscheme', 'C12_port_width', 'C12_port_width_counterexample',
-    'C12_content_length_width', 'C12_declared_length_waits', 'C12_scripted_peer_stream']]
+    'C12_content_length_width', 'C12_declared_length_waits', 'C12_scripted_peer_stream',
+    'C12_multi_token_own', 'C12_multi_frame', 'C12_multi_per_connection', 'C12_multi_stale_commit',
+    'C12_multi_stale_commit_counterexample_unrepaired_cabinet', 'C12_multi_stop_all', 'C12_multi_handler_stop']]
 SOURCES = [
     'modules/http/common.cpp', 'modules/http/url.cpp', 'modules/http/request.cpp', 'modules/http/respond.cpp',
     'modules/http/server/request_parser.cpp', 'modules/http/server/server.cpp', 'modules/http/server/server_imp.cpp',
@@ -73,7 +75,15 @@ TRUSTED = ['models lean/TboxModel/C12/Model.lean (parser, feed loop) and Pipelin
            'as oracle input; BufferedFd::send / onWriteCallback (network/, property C06) are modelled as far as the http server depends on them: '
            'append when the buffer is not empty, direct write otherwise, EAGAIN buffers, any other error DROPS the chunk, the write event reports '
            'send-complete when it finds the buffer empty — also after a drop',
-           'shutdown() calls on the server side are a model-internal observable (`M shutdown`; the server makes none)',
+           'system calls on the server side of every connection (fcntl F_SETFL/F_SETFD, setsockopt, shutdown, close — interposed in the harness, '
+           'attributed to the connection by accept order) are a model-internal observable (`M sys`): the library makes the accepted socket non-blocking, '
+           'sets no socket option, never shuts down, and closes the socket in the op that tears the connection down (in cabinet-position order when '
+           'stop() tears several down); kernel semantics assumed: close() without SO_LINGER keeps delivering what the kernel already accepted',
+           'several connections (Multi.lean): one Server record per accepted connection + a transcription of cabinet::Cabinet (cells, LIFO free list, '
+           'ids never reissued) for TcpServer::conns; the harness has up to 8 clients on the Unix socket (`conn`, `on <k>`), attributes each request to '
+           'the connection whose socket the library read last (interposed readv), reads at EVERY client after every op and prints bytes / EOF seen at a '
+           'connection other than the current one as `P xout` / `P xeof`; write answers (`wq`) are one global queue on both sides, `wfail` / EPIPE is per socket; '
+           '`conn` is only offered while the server is running (no model of the listen backlog); ops sstop/sclean/sstart = Server::stop/cleanup/start',
            'a case with a peer half-close is run as coded (`chalf`) and — for the first 3 such cases — as the property asks (`chalfS`, recorded finding); '
            'the fingerprint of the finding is given only when the implementation reports EOF where responses were still expected AND the same '
            'history agrees with the model of the code as it is; everything else in such a history keeps its own fingerprint']
@@ -82,7 +92,8 @@ ASSUMPTIONS = ['size_t is 64 bit', 'operator new does not fail',
                'strings given to StringToUrlHost are shorter than 2^31 bytes (url.cpp:208 keeps a position in an int)',
                'a failed write on a socket is permanent (EPIPE / ECONNRESET); transient errors other than EAGAIN (ENOBUFS, EINTR) make BufferedFd::send '
                'drop data on a live connection - property C06, not modelled here',
-               'each Context is destroyed once (shared_ptr), so each delivered request commits exactly once']
+               'each Context is destroyed once (shared_ptr), so each delivered request commits exactly once',
+               'fewer than 2^64 connections accepted by one TcpServer (cabinet ids wrap at 2^64: property C08)']
 RULE = ('cases from props/C12/plugin.py: (a) parser level — pipelines of 1-4 generated requests (7 methods, targets with params/query/'
         'fragment/escapes, 3 versions, 0-3 extra headers, Content-Length + body incl. CR/LF/NUL bytes), fed through a real RequestParser '
         'in 1..n segments (single, every byte, random cuts, cuts next to every CR/LF/space/colon), plus the same with missing or '
@@ -109,6 +120,15 @@ RULE = ('cases from props/C12/plugin.py: (a) parser level — pipelines of 1-4 g
         '(k) width families: Content-Length strings on both sides of 2^15/2^16/2^31/2^32/2^63/2^64-2, with sign / blank / hex / leading zeros, as a '
         'DECLARED length with a 3-byte body followed by peer close / half-close / more bytes; header lines of 32767..131073 bytes; ports on both sides of '
         '2^15/2^16/2^31/2^32/2^63; parse() input at every start alignment 0..7, right-aligned against an ASan redzone. '
+        '(l) SEVERAL CONNECTIONS: 2-5 (up to 8) clients of one server, each with its own pipeline (requests /c<j>/<i>), segments and handler completions '
+        'interleaved across connections; teardown of one connection (closing request, peer close, half close, read error, parse failure, write fault) '
+        'while others are mid-request / have parked responses; stop()/cleanup() outside and from inside a handler with connections in different pipeline '
+        'states, start() again, new connections reusing the cabinet cell of a torn-down one, late completions of every Context afterwards; '
+        '(m) STATE-DERIVED parser inputs: a body that is a complete request (delivered whole or as a segment of its own), a request whose bytes equal the '
+        'previous body / the previous request / a prefix of it, Content-Length = bytes buffered at the blank line -1/0/+1 (0..65), header names differing in '
+        'case from Content-Length / Connection, duplicate Content-Length headers with different / malformed values, close inside longer Connection values, '
+        'the same request 2-3 times, 64..3000 headers (also 3000 times the same name); (n) placement: every byte-string input of url.cpp / Respond::toString as a heap '
+        'string of exactly its size, lengths 0..4 and around 8/16/24/32/64, escapes ending at / 1 / 2 bytes before the end. '
         'non-trivial = the model run delivers at least one request out of >= 2 segments, or parks/flushes a response, or fails/closes, '
         'or sees a peer close or a large response; '
         'distinct = distinct op text')
@@ -120,7 +140,9 @@ LEVEL_TEXT = ('Lean 4 theorems over a hand-written model of RequestParser::parse
               'and of Request::toString (parse o render returns the request, plus the Content-Length entry, for every printable request value) '
               'and of the response pipeline (responses written in request order exactly once, no response stuck, nothing after the closing '
               'response, connection dropped after it and only after every byte was delivered, a single tear-down under peer close at any '
-              'point, peer stream = prefix of the in-order responses under partial writes); counterexample theorems for the unpatched code; the model is tied to the working '
+              'point, peer stream = prefix of the in-order responses under partial writes) and of SEVERAL CONNECTIONS of one server over a transcription of the '
+              'TcpServer cabinet (a token resolves to its own connection or to nothing for every history incl. cell reuse and stop/start; frame: an event of one '
+              'connection leaves every other record untouched; every connection\'s pipeline is the run of its own admissible history; stop() tears all down); counterexample theorems for the unpatched code; the model is tied to the working '
               'tree on every run by differential execution (ASan+UBSan) at parser level and against a real Server over a Unix socket')
 LEVEL_NOTE = ('trusted: Lean kernel, hand-written model + differential tie (coverage bounded by the generator, measured in evidence); '
               'requests without Content-Length are outside the segmentation theorem (the code takes "everything in the buffer" as body); '
@@ -678,6 +700,244 @@ def gen_perm_case(rng, k=None, order=None):
     return ops
 
 
+def gen_state_case(rng):
+    """inputs derived from what the parser object (and the receive buffer) hold from the previous steps of the SAME connection:
+    a request equal to the previous request's body; a body that contains a complete request; Content-Length equal to the bytes
+    buffered right now +-1; header names differing only in case from Content-Length / Connection; duplicate Content-Length headers
+    with different values; `close` inside a longer Connection value; the same request twice; a request equal to the previous
+    request's header block; very many headers"""
+    fam = rng.choice(['body-is-request', 'body-is-request', 'next-is-prev-body', 'cl-vs-buffered', 'cl-vs-buffered', 'case', 'dup-cl', 'dup-cl',
+                      'conn-token', 'same-twice', 'prev-prefix', 'many'])
+    inner = rng.choice([b'GET /in HTTP/1.1\r\nContent-Length: 0\r\n\r\n', b'GET /in HTTP/1.1\r\nConnection: close\r\nContent-Length: 0\r\n\r\n',
+                        b'POST /in HTTP/1.1\r\nContent-Length: 3\r\n\r\nxyz', b'GET /in HTTP/1.0\r\n\r\n'])
+    nxt = b'GET /next HTTP/1.1\r\nContent-Length: 0\r\n\r\n'
+    server = rng.random() < 0.35
+    segs = None
+    if fam == 'body-is-request':        # must be delivered as a body, never parsed as a request
+        d = rng.choice([0, 0, 0, -1, 1, len(inner)])
+        outer = ('POST /o HTTP/1.1\r\nContent-Length: %d\r\n\r\n' % max(0, len(inner) + d)).encode() + inner
+        stream = outer + nxt
+        segs = split_stream(rng, stream, rng.choice(['one', 'edge', 'two', 'rand']))
+        if rng.random() < 0.4:      # the body arrives as a segment of its own, exactly the inner request
+            h = len(outer) - len(inner)
+            segs = [stream[:h], inner, stream[h + len(inner):]]
+    elif fam == 'next-is-prev-body':    # the next request's bytes EQUAL the previous body (and the previous whole request)
+        outer = ('POST /o HTTP/1.1\r\nContent-Length: %d\r\n\r\n' % len(inner)).encode() + inner
+        stream = outer + inner + outer + nxt
+        segs = rng.choice([[outer, inner, outer, nxt], [outer + inner, outer + nxt], split_stream(rng, stream, 'edge')])
+    elif fam == 'cl-vs-buffered':       # declared length = what is in the buffer when the blank line is parsed, -1, +1
+        have = rng.choice([0, 1, 2, 3, 7, 8, 15, 16, 17, 63, 64, 65])
+        d = rng.choice([-1, 0, 0, 1])
+        cl = max(0, have + d)
+        head = ('PUT /b HTTP/1.1\r\nContent-Length: %d\r\n\r\n' % cl).encode()
+        body = bytes(rng.choice(b'GET /\r\n:x') for _ in range(have))
+        rest = bytes(rng.choice(b'ab') for _ in range(max(0, cl - have))) + nxt
+        first = head + body
+        if rng.random() < 0.5:          # the previous request is still in front of it in the same segment
+            first = nxt + first
+        segs = [first] + ([rest[:1], rest[1:]] if rng.random() < 0.5 and len(rest) > 1 else [rest])
+    elif fam == 'case':
+        k1 = rng.choice(['content-length', 'CONTENT-LENGTH', 'Content-length', 'content-Length', 'Content-Length', 'CoNtEnT-LeNgTh'])
+        k2 = rng.choice(['connection', 'CONNECTION', 'Connection', 'connectioN'])
+        v2 = rng.choice(['close', 'Close', 'CLOSE', 'keep-alive', 'Keep-Alive'])
+        stream = ('POST /c HTTP/%s\r\n%s: 3\r\n%s: %s\r\n\r\nabc' % (rng.choice(['1.1', '1.0']), k1, k2, v2)).encode() + nxt
+        segs = split_stream(rng, stream, rng.choice(['one', 'edge', 'two']))
+    elif fam == 'dup-cl':               # which one wins? (the last one parsed; the map keeps the last value)
+        a_, b_ = rng.choice([(3, 5), (5, 3), (0, 3), (3, 0), (3, 3), (2, 4)])
+        bad = rng.choice([None, None, 'x', '-1', ''])
+        lines = ['Content-Length: %d' % a_, 'Content-Length: %s' % (bad if bad is not None else b_)]
+        if rng.random() < 0.3: lines.insert(1, 'X-Mid: 1')
+        if rng.random() < 0.3: lines.append('content-length: 1')
+        stream = ('POST /d HTTP/1.1\r\n' + ''.join(l + '\r\n' for l in lines) + '\r\n').encode() + b'abcde' + nxt
+        segs = split_stream(rng, stream, rng.choice(['one', 'edge', 'two', 'bytes']))
+    elif fam == 'conn-token':
+        v = rng.choice(['keep-alive, close', 'close, keep-alive', 'closed', 'xclosex', 'enclosed', 'clos', 'CLOSE', 'close ', 'keep-alive,close',
+                        'Keep-Alive', 'keep-alive-not', 'xkeep-alivex', 'upgrade', 'c l o s e', 'close\tx'])
+        ver = rng.choice(['1.1', '1.1', '1.0'])
+        stream = ('GET /k HTTP/%s\r\nConnection: %s\r\nContent-Length: 0\r\n\r\n' % (ver, v)).encode() + nxt
+        segs = split_stream(rng, stream, rng.choice(['one', 'one', 'edge']))
+        server = rng.random() < 0.7
+    elif fam == 'same-twice':           # the identical request again (a 'same as last time? skip' shortcut would show)
+        r1 = gen_request(rng, closing=False if server else None)
+        n = rng.choice([2, 3])
+        stream = r1 * n
+        segs = rng.choice([[r1] * n, [stream], split_stream(rng, stream, 'rand')])
+    elif fam == 'prev-prefix':          # the next request is a prefix / the header block of the previous one
+        r1 = b'POST /p HTTP/1.1\r\nX-A: b\r\nContent-Length: 4\r\n\r\nBODY'
+        cut = rng.choice([len(r1) - 4, len(r1) - 6, 18, 10])
+        stream = r1 + r1[:cut] + (b'' if cut < len(r1) - 4 else b'BODY') + nxt
+        segs = split_stream(rng, stream, rng.choice(['one', 'edge', 'rand']))
+    else:
+        nh = rng.choice([64, 65, 255, 256, 257, 1000, 3000])
+        same = rng.random() < 0.3
+        hdrs = ''.join('%s: %d\r\n' % ('H' if same else 'H%d' % i, i) for i in range(nh))
+        stream = ('GET /m HTTP/1.1\r\n%sContent-Length: 0\r\n\r\n' % hdrs).encode() + nxt
+        segs = split_stream(rng, stream, rng.choice(['one', 'two', 'rand']))
+    segs = [x for x in segs if x]
+    if server:
+        return ['srv', 'sync 0 6f6b', 'sync 1 6f6b', 'sync 2 6f6b', 'sync 3 6f6b'] + ['seg ' + hx(x) for x in segs]
+    return ['feed ' + hx(x) for x in segs]
+
+
+def gen_placement_case(rng):
+    """everything besides parse() that takes a byte string: UrlDecode / UrlEncode / StringToUrlPath / StringToUrlHost / StringToUrl /
+    Respond::toString with lengths 0..3 and around the 15/16 (small-string), 31/32 and 64-byte boundaries; the harness hands every
+    input over as a heap string of exactly that size (right against the ASan redzone)"""
+    ops = []
+    for _ in range(rng.choice([4, 8])):
+        n = rng.choice([0, 1, 2, 3, 4, 7, 8, 9, 14, 15, 16, 17, 22, 23, 24, 31, 32, 33, 63, 64, 65])
+        kind = rng.choice(['dec', 'dec', 'dec-tail', 'enc', 'upath', 'uhost', 'url', 'mkres'])
+        if kind == 'dec':
+            ops.append('dec ' + hx(bytes(rng.choice(b'%4a1Fz ') for _ in range(n))))
+        elif kind == 'dec-tail':        # an escape that ends exactly at / one or two bytes before the end of the string
+            tail = rng.choice([b'%', b'%4', b'%41', b'%4g', b'%g', b'%%', b'%%4'])
+            ops.append('dec ' + hx((b'a' * max(0, n - len(tail)) + tail)))
+        elif kind == 'enc':
+            ops.append('enc %d %s' % (rng.randrange(2), hx(bytes(rng.choice(b'ab /%\xff\x00.') for _ in range(n)))))
+        elif kind == 'upath':
+            t = b'/' + bytes(rng.choice(b'ab;?#=&%41') for _ in range(max(0, n - 1)))
+            ops.append('upath ' + hx(t[:n]))
+        elif kind == 'uhost':
+            ops.append('uhost ' + hx(bytes(rng.choice(b'uh@:%419.') for _ in range(n))))
+        elif kind == 'url':
+            t = rng.choice([b'', b'a://', b'http://h']) + bytes(rng.choice(b'h/:@?#%4a') for _ in range(n))
+            ops.append('url ' + hx(t[:n] if rng.random() < 0.5 else t))
+        else:
+            ops.append('mkres k1_1 %d - %s' % (rng.choice([200, 404, 0]), hx(b'x' * n)))
+    return ops
+
+
+def gen_multi_case(rng, nconn=None, fam=None):
+    """several connections of ONE server, interleaved: every connection has its own pipeline (requests /c<j>/<i>), its segments and
+    handler completions are interleaved with those of the others; connections are closed by the peer / a read error / a parse
+    failure / a closing request while others are alive; stop()/cleanup() outside and from inside a handler with connections in
+    different pipeline states; restart; a NEW connection reusing the cabinet slot of a torn-down one whose Contexts complete late"""
+    nconn = nconn or rng.choice([2, 2, 3, 3, 4, 5])
+    fam = fam or rng.choice(['mix', 'mix', 'mix', 'reuse', 'reuse', 'stop', 'hstop', 'restart', 'fault'])
+    ops = ['srv']
+    cur = [0]
+    st = {}          # per connection: stream, fed, ends, kept, done, dead, nreq
+
+    def mk(j):
+        k = rng.choice([1, 2, 2, 3, 4])
+        closing = rng.randrange(k + 2) if rng.random() < 0.35 else None
+        bad = rng.randrange(k) if rng.random() < 0.08 else None
+        reqs = []
+        for i in range(k):
+            body = b'' if rng.random() < 0.6 else bytes(rng.choice(b'abc\r\nG') for _ in range(rng.choice([1, 3, 9])))
+            if i == bad: reqs.append(b'GE T /c%d/%d HTTP/1.1\r\n\r\n' % (j, i)); continue
+            reqs.append(('%s /c%d/%d HTTP/1.1\r\n%sContent-Length: %d\r\n\r\n' % ('POST' if body else 'GET', j, i,
+                         'Connection: close\r\n' if closing == i else '', len(body))).encode() + body)
+        stream = b''.join(reqs)
+        ends, pos = [], 0
+        for r in reqs: pos += len(r); ends.append(pos)
+        n = k if closing is None or closing >= k else closing + 1
+        if bad is not None: n = min(n, bad)
+        segs = split_stream(rng, stream, rng.choice(['one', 'two', 'rand', 'edge']))[:6]
+        st[j] = dict(segs=segs, fed=0, ends=ends, n=n, kept=set(), done=set(), dead=False, scripts={})
+
+    def on(j):
+        if cur[0] != j:
+            ops.append('on %d' % j); cur[0] = j
+
+    def delivered(j): return [i for i in range(st[j]['n']) if st[j]['ends'][i] <= st[j]['fed']]
+
+    def feed(j):
+        c = st[j]
+        if not c['segs']: return False
+        on(j)
+        if c['fed'] == 0:          # handler scripts are set before the first segment
+            for i in range(c['n']):
+                r = rng.random()
+                if r < 0.25: ops.append('sync %d %s' % (i, hx(b's%d.%d' % (j, i)))); c['scripts'][i] = 'b'
+                elif r < 0.33:
+                    sp = rng.choice(['n/b41', 'n/k', 'k.n/b42', 'n.n/b43', 'b41.b42'])
+                    ops.append('script %d %s' % (i, sp)); c['scripts'][i] = sp
+                elif fam == 'hstop' and r < 0.50:
+                    sp = rng.choice(['s', 'c', 'k.s', 'k.c', 'b41.s', 'n/c'])
+                    ops.append('script %d %s' % (i, sp)); c['scripts'][i] = sp
+        sg = c['segs'].pop(0)
+        ops.append('seg ' + hx(sg)); c['fed'] += len(sg)
+        return True
+
+    def complete(j, late=False):
+        c = st[j]
+        cand = [i for i in delivered(j) if i not in c['done'] and ('k' in c['scripts'].get(i, 'k'))]
+        if not cand: return False
+        i = rng.choice(cand); c['done'].add(i)
+        on(j)
+        r = rng.random()
+        if r < 0.7: ops.append('done %d %s' % (i, hx(b'r%d.%d' % (j, i))))
+        elif r < 0.8: ops.append('rel %d' % i)
+        elif r < 0.9: ops.append('doneR %d %d - %s' % (i, rng.choice([200, 404, 500]), hx(b'R%d.%d' % (j, i))))
+        else: ops.append('doneN %d %d %d' % (i, rng.choice([5000, 70000]), 48 + j))
+        return True
+
+    mk(0)
+    for j in range(1, nconn):
+        if rng.random() < 0.6: ops.append('conn'); mk(j)
+    steps = rng.choice([8, 12, 18, 25])
+    for _ in range(steps):
+        live = sorted(st)
+        r = rng.random()
+        j = rng.choice(live)
+        if r < 0.40: feed(j)
+        elif r < 0.70: complete(j)
+        elif r < 0.76 and len(st) < nconn + (2 if fam in ('reuse', 'restart') else 0):
+            ops.append('conn'); mk(len(st))
+        elif r < 0.86 and fam in ('mix', 'reuse', 'fault'):
+            if not st[j]['dead']:
+                on(j); st[j]['dead'] = True
+                ops.append(rng.choice(['cclose', 'cclose', 'cclose', 'chalf', 'rseg ' + hx(b'GET /x HTTP/1.1\r\n\r\n')]))
+                if fam == 'reuse' and rng.random() < 0.8 and len(st) < 8:
+                    ops.append('conn'); mk(len(st))          # takes the cabinet slot that was just freed
+        elif r < 0.90 and fam == 'fault':
+            on(j); ops.append(rng.choice(['wfail', 'wq ' + wq_spec(rng), 'wq ' + rng.choice(WQ_FIXED)]))
+        elif r < 0.93 and fam in ('stop', 'restart'):
+            ops.append(rng.choice(['sstop', 'sstop', 'sclean']))
+            if fam == 'restart':
+                ops.append('sstart')
+                if len(st) < 8: ops.append('conn'); mk(len(st))
+        elif r < 0.95 and fam == 'restart':
+            ops.append('sstart')
+    # everything that is still outstanding completes at the end (late commits of torn-down connections included)
+    order = [(j, i) for j in st for i in delivered(j) if i not in st[j]['done'] and ('k' in st[j]['scripts'].get(i, 'k'))]
+    rng.shuffle(order)
+    for (j, i) in order:
+        on(j); ops.append('done %d %s' % (i, hx(b'late%d.%d' % (j, i))))
+    if rng.random() < 0.3:
+        j = rng.choice(sorted(st)); on(j); ops.append('seg ' + hx(b'GET /after HTTP/1.1\r\nContent-Length: 0\r\n\r\n'))
+    return ops
+
+
+def multi_fixed():
+    """directed multi-connection histories"""
+    def rq(j, i, close=False):
+        return ('GET /c%d/%d HTTP/1.1\r\n%sContent-Length: 0\r\n\r\n' % (j, i, 'Connection: close\r\n' if close else '')).encode()
+    a3 = b''.join(rq(0, i) for i in range(3)); b3 = b''.join(rq(1, i) for i in range(3))
+    # slot reuse: connection 0 is torn down with Contexts held (peer close / read error / parse failure / closing request / half
+    # close), a new connection takes its cabinet slot, then the old Contexts complete: nothing may arrive at the new connection
+    for down in (['cclose'], ['rseg 00'], ['seg ' + hx(b'BAD\r\n\r\n')], ['chalf'], ['seg ' + hx(rq(0, 3, True)), 'done 3 33', 'done 0 30', 'done 1 31', 'done 2 32']):
+        yield ['srv', 'seg ' + hx(a3)] + down + ['conn', 'on 1', 'seg ' + hx(b3), 'on 0', 'done 0 58', 'done 1 59', 'on 1', 'done 1 31', 'done 0 30', 'on 0', 'done 2 5a', 'on 1', 'done 2 32']
+    # same after stop()/cleanup() + start(): the cabinet was cleared, positions start again at 0 (ids must not)
+    yield ['srv', 'conn', 'seg ' + hx(a3), 'on 1', 'seg ' + hx(b3), 'sstop', 'sstart', 'conn', 'conn', 'on 2', 'seg ' + hx(a3), 'on 3', 'seg ' + hx(b3),
+           'on 0', 'done 0 58', 'on 1', 'done 0 59', 'done 1 59', 'on 2', 'done 0 30', 'on 3', 'done 1 31', 'done 0 30', 'on 0', 'done 1 58', 'done 2 58', 'on 2', 'done 1 31', 'done 2 32']
+    # stop() / cleanup() with connections in different pipeline states: mid-request, responses parked, closing response pending, idle
+    for stop in ('sstop', 'sclean'):
+        yield ['srv', 'conn', 'conn', 'conn', 'seg ' + hx(a3[:20]), 'on 1', 'seg ' + hx(b3), 'done 2 32', 'done 1 31', 'on 2', 'seg ' + hx(rq(2, 0, True)), stop,
+               'on 1', 'done 0 30', 'on 2', 'done 0 30', 'on 0', 'seg ' + hx(a3[20:]), 'on 3', 'seg ' + hx(b3), 'conn', 'sstart', 'conn', 'on 4', 'seg ' + hx(a3), 'done 0 30']
+        # ... and from inside a handler of connection 1
+        yield ['srv', 'conn', 'conn', 'seg ' + hx(a3), 'done 1 31', 'on 2', 'seg ' + hx(b3[:30]), 'on 1', 'script 1 ' + ('k.s' if stop == 'sstop' else 'k.c'), 'seg ' + hx(b3),
+               'done 0 30', 'done 1 31', 'on 0', 'done 0 30', 'done 2 32', 'on 2', 'seg ' + hx(b3[30:]), 'sstart', 'conn']
+    # two connections answer in opposite orders; the closing one is dropped, the other goes on
+    yield ['srv', 'conn', 'seg ' + hx(a3), 'on 1', 'seg ' + hx(b3[:-len(rq(1, 2))] + rq(1, 2, True)), 'done 2 32', 'on 0', 'done 2 32', 'on 1', 'done 0 30', 'on 0', 'done 1 31',
+           'on 1', 'done 1 31', 'on 0', 'done 0 30', 'seg ' + hx(a3), 'on 1', 'seg ' + hx(b3)]
+    # write faults on one connection only (EPIPE for good / short counts), the other keeps delivering
+    yield ['srv', 'conn', 'seg ' + hx(a3), 'on 1', 'seg ' + hx(b3), 'wfail', 'done 0 30', 'on 0', 'done 0 30', 'on 1', 'done 1 31', 'on 0', 'done 1 31', 'wq s3,a,e', 'done 2 32', 'on 1', 'done 2 32']
+    # malformed lines
+    yield ['conn', 'on 0', 'sstart', 'srv', 'on 1', 'on x', 'on', 'conn 1', 'conn', 'on 1', 'on 2', 'sstart', 'sstart x', 'conn', 'conn', 'conn', 'conn', 'conn', 'conn', 'conn', 'sclean', 'conn', 'sstart']
+
+
 NASTY_ORDERS = [[1, 3, 0, 2], [1, 3, 0, 2, 4], [1, 3, 5, 0, 2, 4], [4, 2, 0, 1, 3], [1, 2, 4, 5, 0, 3], [5, 3, 1, 0, 2, 4], [2, 4, 1, 0, 3, 5],
                 [1, 4, 0, 3, 2], [3, 1, 0, 2, 4], [1, 3, 4, 0, 2, 5], [2, 3, 5, 1, 0, 4], [5, 4, 3, 2, 1, 0], [1, 0, 3, 2, 5, 4], [0, 2, 4, 1, 3, 5]]
 
@@ -692,17 +952,51 @@ BASE = [b'GET / HTTP/1.1\r\nContent-Length: 0\r\n\r\n',
 HALF_SPEC_CASES = 3     # the check examines the first MAX_REPORT diverging cases only: the recorded finding must not crowd others out
 
 
+# The recorded half-close finding is reproduced on every run and counts as a property-level break of its case; the generic
+# machinery reports a divergence that shows ONLY in model-internal (`M`) lines when no case has a property-level break, so the
+# cases that reproduce the finding run in a pass of their own (`finding`) and everything else in the `main` pass, where a
+# broken correspondence on `M sys` (socket options, shutdown, close order) or `M calls` is reported as such.
+_PHASE = 'all'
+
+
 def gen(rng, tier):
     nspec = 0
-    if HALF_KNOWN:      # the recorded finding, reproduced on every run: responses outstanding when the peer half-closes
+    if HALF_KNOWN and _PHASE in ('all', 'finding'):      # the recorded finding: responses outstanding when the peer half-closes
         three = ''.join('GET /%d HTTP/1.1\r\nContent-Length: 0\r\n\r\n' % i for i in range(3))
         yield ['srv', 'seg ' + hx(three), 'done 1 31', 'chalfS', 'done 0 30', 'done 2 32']
     for ops in gen_raw(rng, tier):
         for v in half_variants(list(ops)):
             if 'chalfS' in v:
                 nspec += 1
-                if nspec > HALF_SPEC_CASES: continue
+                if nspec > HALF_SPEC_CASES or _PHASE == 'main': continue
+            elif _PHASE == 'finding': continue
             yield v
+
+
+def check(tier, seed, replay):
+    """two passes of the standard check (see _PHASE); the evidence file describes the main pass and names the finding"""
+    global _PHASE
+    import types, json
+    P = types.SimpleNamespace(**{k: v for k, v in globals().items() if k != 'check'})
+    if replay or not HALF_KNOWN:
+        _PHASE = 'all'
+        return vlib.standard_check(P, tier, seed, replay)
+    ev = os.path.join(vlib.VERIF, 'evidence', ID + '.json')
+    _PHASE = 'finding'
+    rc = vlib.standard_check(P, 'quick', seed, None)
+    if rc != 0: return rc
+    try: hit = json.load(open(ev))['coverage'].get('known_findings_hit', [])
+    except Exception: hit = []
+    _PHASE = 'main'
+    rc = vlib.standard_check(P, tier, seed, None)
+    try:
+        e = json.load(open(ev))
+        e['coverage']['known_findings_hit'] = list(e['coverage'].get('known_findings_hit', [])) + [h for h in hit if h not in e['coverage'].get('known_findings_hit', [])]
+        e['coverage']['notes'] = list(e['coverage'].get('notes', [])) + ['the cases reproducing the recorded half-close finding ran in a separate pass before this one']
+        json.dump(e, open(ev, 'w'), indent=1)
+    except Exception:
+        pass
+    return rc
 
 
 def gen_raw(rng, tier):
@@ -797,13 +1091,23 @@ def gen_raw(rng, tier):
         yield ['srv %d' % k, 'sync 0 30', 'seg ' + hx(three), 'done 1 31', 'rseg ' + hx(three), 'done 2 32']
     for _ in range(200 if tier == 'quick' else 5000):
         yield gen_fault_case(rng)
+    # --- inputs derived from the state the parser / the connection keeps; placement of every other byte-string input
+    for _ in range(300 if tier == 'quick' else 8000):
+        yield gen_state_case(rng)
+    for _ in range(100 if tier == 'quick' else 2500):
+        yield gen_placement_case(rng)
+    # --- several connections of one server, interleaved
+    for ops in multi_fixed():
+        yield ops
+    for _ in range(300 if tier == 'quick' else 8000):
+        yield gen_multi_case(rng)
 
 
 def nontrivial(ops, model_lines):
     tags = ' '.join(l for l in model_lines if l.startswith('B '))
     nseg = sum(1 for o in ops if o.startswith(('feed ', 'seg ')))
     if 'req-' in tags and nseg >= 2: return 1
-    if any(t in tags for t in ('wq-', 'read-error', 'accept-errors', 'parked', 'wrote-flush', 'wrote-closing', 'parse-fail', 'seg-after-close', 'peer-close', 'doneN', 'doneR', 'rel-', 'half-close', 'wfail', 'epipe', 'h-', 'url-', 'absurl-', 'host-', 'upath-', 'uhost-', 'mkreq', 'mkres', 'stop-')): return 1
+    if any(t in tags for t in ('wq-', 'read-error', 'accept-errors', 'parked', 'wrote-flush', 'wrote-closing', 'parse-fail', 'seg-after-close', 'peer-close', 'doneN', 'doneR', 'rel-', 'half-close', 'wfail', 'epipe', 'h-', 'url-', 'absurl-', 'host-', 'upath-', 'uhost-', 'mkreq', 'mkres', 'stop-', 'multi-', 'conn', 'stale-token', 'sstart')): return 1
     return None
 
 
